@@ -194,6 +194,13 @@ def run(ctx):
     if n1 < 3:
         raise AnalysisError(f"only {n1} 'required member missing' rejections recognised (message, header and group-item level expected)")
 
+    # the header validator checks the VALUE of a required field that is present (as the body and group-item validators do for theirs): a
+    # validate_value call on the header's path, not under a test that excludes plain fields
+    ch_val = calls_of(graphs[HEADER], "validate_value")
+    ok_h = any(not has(fs, r"isinstance\(\w+, SchemaField\)", truth=False) for _n, _c, fs in ch_val)
+    ctx.instance(R1, f"{HEADER}[value of a present required field is validated]", ok_h,
+                 "the header validator no longer passes the value of a required header field through validate_value (or only where the member is not a plain "
+                 "field): a header value outside its type / enumeration is accepted", loc(repo.func(HEADER)))
     # ------------------------------------------------------------------ rule 2
     gv, gg = graphs[VALIDATE], graphs[GROUP]
     rv, rg = raises_of(gv), raises_of(gg)
